@@ -118,6 +118,10 @@ class CallsMixin:
                     args.extend(v)
                 elif isinstance(v, PList) and v.sym is None:
                     args.extend(v.items)
+                elif isinstance(v, PSet):
+                    args.extend(v.items)
+                elif f in (__import__("asyncio").gather,):
+                    args.append(v)  # gather(*collection): the model does not look at the members
                 else:
                     raise Unsupported("*args of symbolic length")
             else:
